@@ -7,7 +7,7 @@ def check(ctx):
     # the lookup / dedup-query definitions over all small shards (colliding prefixes, repeated chunks, keyed), Cap = 2
     ctx.model("MC_Shard", "MC_Shard.cfg", coverage=False)
     ctx.model("MC_Shard", "MC_Shard_prefixonly.cfg", expect_violation="PrefixOnlyTruthful", coverage=False)
-    k = 6 if thorough else 1
+    k = 8 if thorough else 3
     for i in range(k):
         sh_common.record(ctx, "dedup", 16 if not thorough else 24, seed_off=i,
                          need=("ShDedup:mem:found", "ShDedup:disk:found", "ShDedup:manager:found", "ShDedup:disk:none"))
